@@ -594,6 +594,13 @@ func (x *e4Run) openWrite(p string, flag int, seek int64, data []byte, readBack 
 				mm.timesSet = false // a content write may legitimately move the timestamps
 			}
 		}
+		if x.doModel && flag&os.O_APPEND == 0 && len(data) > 0 {
+			// the handle's cursor stands behind the last byte written (io.Seeker: Seek(0, SeekCurrent) reports it)
+			if pos, err := f.Seek(0, io.SeekCurrent); err == nil && pos != seek+int64(len(data)) {
+				x.fail("cursor-after-write", "%s: after Seek(%d) and writing %d bytes the cursor stands at %d, not at %d", p, seek, len(data), pos, seek+int64(len(data)))
+				return nil
+			}
+		}
 		if readBack && x.doModel {
 			if _, err := f.Seek(0, io.SeekStart); err != nil {
 				x.fail("samehandle-seek", "Seek(0) on the writing handle of %s: %v", p, err)
